@@ -65,5 +65,13 @@ func TestSweep(t *testing.T) {
 			}
 		}
 	}
+	// tens of thousands of appends onto one header (more than 2^16 once)
+	for i, tn := range []string{"int16", "float64", "uint8", "NFloat32"} {
+		many := []int{40000, 70000, 33000, 20000}[i]
+		if !env.Thorough() && i >= 2 {
+			many /= 4
+		}
+		Oracle.One(t, env, rec, "sweep", &Case{T: tn, C: 1 + i%3, Kr: i * 2, A: i, B: i, Many: many})
+	}
 	rec.Exhaustive("6 types x C<=3 x root<=3(4) frames x all destination windows x all admissible sources (self, separate 0..spare+2 frames, every root window before the spare region) x {none, self, 1-frame, 3-frame} second append", true)
 }
